@@ -53,11 +53,14 @@ func run(r *common.Run) error {
 		case "fuzz":
 			c.corpus()
 			c.paged()
-			c.sizes()
 			c.systematic()
 			c.random()
+		case "sizes":
+			c.sizes()
 		case "scen":
-			c.scenarios()
+			c.scenarios(false)
+		case "pending":
+			c.scenarios(true)
 		case "nego":
 			c.negotiation()
 		case "minimise":
@@ -82,17 +85,10 @@ func run(r *common.Run) error {
 	}
 	c.primitives()
 	c.skeletons()
-	r.Mark("case fuzz")
-	if err := c.runChild("fuzz"); err != nil {
-		return err
-	}
 	r.Exhaustive = append(r.Exhaustive, "every single-step mutation (noise child at every position, every attribute dropped/emptied/garbled, every child dropped, every element stripped) of every stanza template and every reply template")
-	r.Mark("case scenarios")
-	if err := c.runChild("scen"); err != nil {
-		return err
-	}
-	r.Mark("case negotiation")
-	return c.runChild("nego")
+	// the groups are independent (each child builds its own sessions): run them side by side,
+	// longest first; their records are merged in this order whatever the scheduling was
+	return c.runGroups([]string{"fuzz", "scen", "nego", "sizes", "pending"})
 }
 
 // primitives ties the kind semantics of the skeleton IR to real Go on the whole finite
